@@ -50,6 +50,19 @@ from .dot import node_to_dot
 from .rdf import RDFMapperCallbackType, node_to_rdf
 
 
+def _index_of(node_list: list[Node], node: Node) -> int:
+    """Return the index of `node` in `node_list`, comparing by identity.
+
+    Note: `list.index()` and `list.remove()` check for equality ('=='), and
+    `Node.__eq__` compares the data objects. This would find the first sibling
+    or clone with equal data, but not necessarily `node`.
+    """
+    for i, n in enumerate(node_list):
+        if n is node:
+            return i
+    raise ValueError(f"{node} is not in list")
+
+
 # ------------------------------------------------------------------------------
 # - Node
 # ------------------------------------------------------------------------------
@@ -753,7 +766,8 @@ class Node:
         if new_parent._tree is not self._tree:
             raise NotImplementedError("Can only move nodes inside same tree")
 
-        self._parent._children.remove(self)  # type: ignore
+        pc = self._parent._children
+        pc.pop(_index_of(pc, self))  # type: ignore
         if not self._parent._children:  # store None instead of `[]`
             self._parent._children = None
         self._parent = new_parent
@@ -797,7 +811,7 @@ class Node:
             self.remove_children()
 
         pc = self._parent._children
-        pc.remove(self)  # type: ignore
+        pc.pop(_index_of(pc, self))  # type: ignore
         if not pc:  # store None instead of `[]`
             pc = self._parent._children = None
 
